@@ -4,16 +4,21 @@ from .tree import BinaryTreeNode
 
 
 class TidierExtreme:
+    """The leftmost and rightmost nodes on the lowest level of a subtree, with
+    their horizontal offsets from the root of that subtree."""
+
     left: Optional[BinaryTreeNode]
     right: Optional[BinaryTreeNode]
-    thread: Optional[BinaryTreeNode]
-    offset: float
+    left_offset: float
+    right_offset: float
+    level: int
 
     def __init__(self) -> None:
         self.left = None
         self.right = None
-        self.thread = None
-        self.offset = 0
+        self.left_offset = 0
+        self.right_offset = 0
+        self.level = -1
 
 
 class TreeMeasurement:
@@ -64,31 +69,21 @@ class TreeLayout:
         if extremes is None:
             extremes = TidierExtreme()
 
+        # An empty subtree is never selected as an extreme
+        if not node:
+            extremes.left = extremes.right = None
+            extremes.level = -1
+            return self
+
         # left and right subtree extreme leaf nodes
         left_extremes = TidierExtreme()
         right_extremes = TidierExtreme()
-
-        # separation at the root of the current subtree and current level.
-        current_separation = 0.0
-        root_separation = 0.0
         min_separation = 1.0
 
-        # The offset from left/right children to the root of the current subtree.
-        left_offset_sum = 0.0
-        right_offset_sum = 0.0
-
-        # Avoid selecting as extreme
-        if not node:
-            if extremes.left is not None:
-                extremes.left.level = -1
-
-            if extremes.right is not None:
-                extremes.right.level = -1
-
-            return self
-
-        # Assign the `node.y`, note the left/right child nodes, and recurse
+        # Assign the `node.y`, drop any thread left by an earlier layout, note the
+        # left/right child nodes, and recurse
         node.y = level
+        node.thread = None
         left = node.left
         right = node.right
         self.measure(left, level + 1, left_extremes)
@@ -99,18 +94,17 @@ class TreeLayout:
         if not node.right and not node.left:
             node.offset = 0
             extremes.right = extremes.left = node
-            return self
-
-        # if only a single child, assign the next available offset and return.
-        if not node.right or not node.left:
-            node.offset = min_separation
-            extremes.right = extremes.left = node.left if node.left else node.right
+            extremes.left_offset = extremes.right_offset = 0
+            extremes.level = level
             return self
 
         # Set the current separation to the minimum separation for the root of the
         # subtree.
         current_separation = min_separation
-        left_offset_sum = right_offset_sum = 0
+        root_separation = min_separation
+
+        # The offset from left/right contour nodes to the root of the current subtree.
+        left_offset_sum = right_offset_sum = 0.0
 
         # Traverse the subtrees until one of them is exhausted, pushing them apart
         # as needed.
@@ -124,72 +118,71 @@ class TreeLayout:
                 root_separation += min_separation - current_separation
                 current_separation = min_separation
 
-            if left.right and left.offset:
-                left_offset_sum += left.offset
-                current_separation -= left.offset
-                left = getattr(left, "thread", left.right)
-            elif left.offset is not None:
-                left_offset_sum -= left.offset
-                current_separation += left.offset
-                left = getattr(left, "thread", left.left)
+            # Follow the right contour of the left subtree
+            assert left.offset is not None
+            if left.right:
+                step = left.offset
+                left = left.right
+            elif left.left:
+                step = -left.offset
+                left = left.left
+            else:
+                # a threaded leaf stores the signed offset to its thread target
+                step = left.offset
+                left = left.thread
+            left_offset_sum += step
+            current_separation -= step
 
-            if right.left and right.offset:
-                right_offset_sum -= right.offset
-                current_separation -= right.offset
-                right = getattr(right, "thread", right.left)
-            elif right.offset is not None:
-                right_offset_sum += right.offset
-                current_separation += right.offset
-                right = getattr(right, "thread", right.right)
+            # Follow the left contour of the right subtree
+            assert right.offset is not None
+            if right.left:
+                step = -right.offset
+                right = right.left
+            elif right.right:
+                step = right.offset
+                right = right.right
+            else:
+                step = right.offset
+                right = right.thread
+            right_offset_sum += step
+            current_separation += step
 
         # Set the root offset, and include it in the accumulated offsets.
-        node.offset = (root_separation + 1) / 2
-        assert node.offset is not None
+        if node.left and node.right:
+            node.offset = root_separation / 2
+        else:
+            # only a single child, assign the next available offset
+            node.offset = min_separation
         left_offset_sum -= node.offset
         right_offset_sum += node.offset
 
         # Update right and left extremes
-        right_left_level = getattr(right_extremes.left, "level", -1)
-        left_left_level = getattr(left_extremes.left, "level", -1)
-        if right_left_level > left_left_level or not node.left:
+        if right_extremes.level > left_extremes.level or not node.left:
             extremes.left = right_extremes.left
-            if extremes.left:
-                assert extremes.left.offset is not None
-                extremes.left.offset += node.offset
-
+            extremes.left_offset = right_extremes.left_offset + node.offset
         else:
             extremes.left = left_extremes.left
-            if extremes.left:
-                assert extremes.left.offset is not None
-                extremes.left.offset -= node.offset
+            extremes.left_offset = left_extremes.left_offset - node.offset
 
-        left_right_level = getattr(left_extremes.right, "level", -1)
-        right_right_level = getattr(right_extremes.right, "level", -1)
-        if left_right_level > right_right_level or not node.right:
+        if left_extremes.level > right_extremes.level or not node.right:
             extremes.right = left_extremes.right
-            if extremes.right:
-                assert extremes.right.offset is not None
-                extremes.right.offset -= node.offset
-
+            extremes.right_offset = left_extremes.right_offset - node.offset
         else:
             extremes.right = right_extremes.right
-            if extremes.right:
-                assert extremes.right.offset is not None
-                extremes.right.offset += node.offset
+            extremes.right_offset = right_extremes.right_offset + node.offset
+        extremes.level = max(left_extremes.level, right_extremes.level)
 
         # If the subtrees have uneven heights, check to see if they need to be
         # threaded.  If threading is required, it will affect only one node.
-        if left and left != node.left and right_extremes and right_extremes.right:
+        if left and left != node.left and right_extremes.right:
             right_extremes.right.thread = left
-            assert right_extremes.right.offset is not None
-            right_extremes.right.offset = abs(
-                right_extremes.right.offset + node.offset - left_offset_sum
+            right_extremes.right.offset = left_offset_sum - (
+                right_extremes.right_offset + node.offset
             )
-        elif right and right != node.right and left_extremes and left_extremes.left:
+        elif right and right != node.right and left_extremes.left:
             left_extremes.left.thread = right
-            assert left_extremes.left.offset is not None
-            left_extremes.left.offset = abs(
-                left_extremes.left.offset - node.offset - right_offset_sum
+            left_extremes.left.offset = right_offset_sum - (
+                left_extremes.left_offset - node.offset
             )
 
         return self
